@@ -7,6 +7,10 @@
 //                         Message::read_from_buffer; the parsed message serialised again.
 //   CBytes bs           : hostile stream (truncations, wrong lengths, flipped bytes, random tails).
 //   CNumSet k base set  : table tie of NumberSet::from_base_and_set / iter / write / read.
+//   CNumRaw k e base bits words extra : a NumberSet as it arrives on the wire (raw parts written by
+//                         the real writer, extra bytes appended, parsed by the real reader) and
+//                         what base(), iter(), iter().rev(), next()/next_back() alternately and
+//                         is_empty() report for the parsed set.
 // The observation renders the implementation's own structures in the model's constructors.
 use std::{
   collections::BTreeSet,
@@ -1036,6 +1040,331 @@ fn run_numset(out: &mut CaseOut, idx: usize, fnk: bool, base: i64, set: &[i64], 
 }
 
 // ------------------------------------------------------------------------------------------------
+// wire-parsed number sets
+
+fn coq_ires(r: &Option<Vec<i64>>) -> String {
+  match r {
+    Some(l) => format!("(IOk {})", util::list(l.iter().map(|x| zi(*x as i128)))),
+    None => "IPanic".to_string(),
+  }
+}
+
+struct RawObs {
+  set: NSet,
+  rest: usize,
+  base: i64,
+  fwd: Option<Vec<i64>>,
+  bwd: Option<Vec<i64>>,
+  alt: Option<Vec<i64>>,
+  empty: Option<bool>,
+}
+
+macro_rules! numraw_impl {
+  ($fname:ident, $set:ty, $mk:expr, $abs:ident) => {
+    /// None = the writer panicked; Some((bytes, None)) = the reader rejects
+    fn $fname(e: E, base: i64, bits: u32, words: &[u32], extra: &[u8]) -> Option<(Vec<u8>, Option<RawObs>)> {
+      let written = catch_unwind(AssertUnwindSafe(|| {
+        <$set>::verif_from_parts($mk(base), bits, words.to_vec())
+          .write_to_vec_with_ctx(e)
+          .unwrap()
+      }))
+      .ok()?;
+      let mut bytes = written;
+      bytes.extend_from_slice(extra);
+      let parsed = catch_unwind(AssertUnwindSafe(|| {
+        <$set>::read_with_length_from_buffer_with_ctx(e, &bytes)
+      }))
+      .ok()?;
+      let (res, used) = parsed;
+      let ns = match res {
+        Ok(ns) => ns,
+        Err(_) => return Some((bytes, None)),
+      };
+      let fwd = catch_unwind(AssertUnwindSafe(|| ns.iter().map(i64::from).collect::<Vec<i64>>())).ok();
+      let bwd =
+        catch_unwind(AssertUnwindSafe(|| ns.iter().rev().map(i64::from).collect::<Vec<i64>>())).ok();
+      let alt = catch_unwind(AssertUnwindSafe(|| {
+        let mut it = ns.iter();
+        let mut v: Vec<i64> = Vec::new();
+        loop {
+          match it.next() {
+            Some(x) => v.push(i64::from(x)),
+            None => break,
+          }
+          match it.next_back() {
+            Some(x) => v.push(i64::from(x)),
+            None => break,
+          }
+        }
+        v
+      }))
+      .ok();
+      let empty = catch_unwind(AssertUnwindSafe(|| ns.is_empty())).ok();
+      let obs = RawObs {
+        set: $abs(&ns),
+        rest: bytes.len() - used,
+        base: i64::from(ns.base()),
+        fwd,
+        bwd,
+        alt,
+        empty,
+      };
+      Some((bytes, Some(obs)))
+    }
+  };
+}
+numraw_impl!(numraw_sn, SequenceNumberSet, sn, abs_sns);
+numraw_impl!(numraw_fn, FragmentNumberSet, |b: i64| FragmentNumber::new(b as u32), abs_fns);
+
+#[allow(clippy::too_many_arguments)]
+fn run_numraw(
+  out: &mut CaseOut,
+  idx: usize,
+  fnk: bool,
+  e: E,
+  base: i64,
+  bits: u32,
+  words: &[u32],
+  extra: &[u8],
+  tags: &[String],
+) {
+  let case = format!(
+    "(CNumRaw {} {} {} {} {} {})",
+    if fnk { "KFN" } else { "KSN" },
+    coq_e(e),
+    zi(base as i128),
+    bits,
+    util::list(words.iter().map(|w| w.to_string())),
+    util::bytes(extra)
+  );
+  let r = if fnk {
+    numraw_fn(e, base, bits, words, extra)
+  } else {
+    numraw_sn(e, base, bits, words, extra)
+  };
+  let mut tags = tags.to_vec();
+  tags.push(format!("raw_{}_{}", if fnk { "fn" } else { "sn" }, if e == Endianness::LittleEndian { "le" } else { "be" }));
+  tags.push(format!(
+    "raw_bits_{}",
+    match bits {
+      0 => "0",
+      1..=31 => "1_31",
+      32 => "32",
+      33..=255 if bits % 32 == 0 => "mult32",
+      33..=255 => "33_255",
+      256 => "256",
+      _ => "gt256",
+    }
+  ));
+  tags.push(format!("raw_padding_{}", if bits % 32 == 0 { "none" } else { "some" }));
+  match r {
+    None => {
+      tags.push("raw_codec_panic".to_string());
+      out.push(idx, case, "ObsPanic".to_string(), &tags, false);
+    }
+    Some((bytes, None)) => {
+      tags.push("raw_rejected".to_string());
+      out.push(idx, case, format!("(ObsNumRaw {} None)", util::bytes(&bytes)), &tags, false);
+    }
+    Some((bytes, Some(o))) => {
+      tags.push("raw_accepted".to_string());
+      let n = o.set.bits as usize;
+      // dirty padding: a one-bit at a position >= numBits in the last word
+      let dirty = n % 32 != 0
+        && o.set.words.last().map_or(false, |w| w & (u32::MAX >> (n % 32)) != 0);
+      if dirty {
+        tags.push("raw_dirty_padding".to_string());
+      }
+      match &o.fwd {
+        Some(l) => tags.push(format!(
+          "raw_members_{}",
+          match l.len() {
+            0 => "0",
+            1 => "1",
+            2..=31 => "2_31",
+            _ => "ge32",
+          }
+        )),
+        None => tags.push("raw_iter_panic".to_string()),
+      }
+      let nontrivial = n > 0;
+      let obs = format!(
+        "(ObsNumRaw {} (Some (RR {} {} {} {} {} {} {})))",
+        util::bytes(&bytes),
+        coq_ns(&o.set),
+        o.rest,
+        zi(o.base as i128),
+        coq_ires(&o.fwd),
+        coq_ires(&o.bwd),
+        coq_ires(&o.alt),
+        util::opt(o.empty.map(|b| util::b(b).to_string()))
+      );
+      out.push(idx, case, obs, &tags, nontrivial);
+    }
+  }
+}
+
+/// words for numBits = bits: 0 = all ones, 1 = only the padding bits after numBits, 2 = only the
+/// last in-window bit, 3 = random, 4 = the first in-window bit and all padding bits,
+/// 5 = every in-window bit and no padding bit
+fn raw_words(r: &mut Rng, bits: u32, pattern: u32) -> Vec<u32> {
+  let wc = ((bits + 31) / 32) as usize;
+  let pad_mask: u32 = if bits % 32 == 0 { 0 } else { u32::MAX >> (bits % 32) };
+  let mut w: Vec<u32> = match pattern {
+    0 => vec![u32::MAX; wc],
+    3 => (0..wc).map(|_| r.next() as u32).collect(),
+    5 => vec![u32::MAX; wc],
+    _ => vec![0; wc],
+  };
+  if wc == 0 {
+    return w;
+  }
+  match pattern {
+    1 => w[wc - 1] = pad_mask,
+    2 => {
+      let i = bits - 1;
+      w[(i / 32) as usize] |= 1 << (31 - i % 32);
+    }
+    4 => {
+      w[0] |= 1 << 31;
+      w[wc - 1] |= pad_mask;
+    }
+    5 => w[wc - 1] &= !pad_mask,
+    _ => {}
+  }
+  w
+}
+const RAW_PATTERN: [&str; 6] =
+  ["all_ones", "only_padding", "last_window_bit", "random", "first_bit_and_padding", "window_only"];
+const RAW_SN_BASES: [i64; 6] =
+  [1, 0x1_0000_0000 - 40, 0x1234_5678_0000, i64::MAX - 0x1_0000 - 300, 0, -5];
+const RAW_FN_BASES: [i64; 4] = [1, 1000, u32::MAX as i64 - 0x1_0000 - 300, 0];
+
+type RawCase = (bool, E, i64, u32, Vec<u32>, Vec<u8>, String);
+
+fn corpus_numraw() -> Vec<RawCase> {
+  let le = Endianness::LittleEndian;
+  let be = Endianness::BigEndian;
+  let t = |s: &str| s.to_string();
+  vec![
+    // the input of the seeded regression: numBits 25, members 10..=20, all 7 padding bits set
+    (false, le, 10, 25, vec![0xffe0_007f], vec![], t("corpus_raw_seed_acknack_padding_ones")),
+    // no member inside the window, padding all ones
+    (true, be, 1000, 5, vec![0x07ff_ffff], vec![], t("corpus_raw_seed_empty_window_padding_ones")),
+    (false, le, 1, 0, vec![], vec![], t("corpus_raw_bits_0")),
+    (false, be, 1, 0, vec![], vec![1, 2, 3, 4], t("corpus_raw_bits_0_trailing_bytes")),
+    (false, le, 1, 1, vec![0x7fff_ffff], vec![], t("corpus_raw_bits_1_only_padding")),
+    (false, le, 1, 1, vec![0x8000_0000], vec![], t("corpus_raw_bits_1_member")),
+    (false, be, 7, 31, vec![1], vec![], t("corpus_raw_bits_31_only_padding")),
+    (false, be, 7, 31, vec![2], vec![], t("corpus_raw_bits_31_last")),
+    (true, le, 7, 32, vec![1], vec![], t("corpus_raw_bits_32_last")),
+    (true, le, 7, 33, vec![0, 0x7fff_ffff], vec![], t("corpus_raw_bits_33_only_padding")),
+    (false, le, 1, 256, vec![u32::MAX; 8], vec![], t("corpus_raw_bits_256_full")),
+    (false, le, 1, 257, vec![u32::MAX; 9], vec![], t("corpus_raw_bits_257_rejected")),
+    // (numBits above u32::MAX - 31 would overflow `(num_bits + 31) / 32` in the writer: not modelled)
+    (true, be, 1, u32::MAX - 31, vec![], vec![], t("corpus_raw_bits_max_rejected")),
+    (false, le, 1, 40, vec![u32::MAX], vec![], t("corpus_raw_one_word_short_rejected")),
+    (false, le, 1, 40, vec![u32::MAX], vec![0xff, 0xff, 0xff], t("corpus_raw_one_word_short_3_bytes_rejected")),
+    (false, le, 1, 40, vec![u32::MAX], vec![0xff, 0xff, 0xff, 0xff, 9], t("corpus_raw_one_word_short_extra_read_as_word")),
+    (false, be, 1, 40, vec![1, 2, 3], vec![], t("corpus_raw_one_word_long_not_written")),
+    (false, le, 1, 0, vec![u32::MAX], vec![], t("corpus_raw_bits_0_with_word")),
+    // the window sticks out of the number type: the debug-build addition bit + base panics
+    (false, le, i64::MAX - 5, 10, vec![0xffc0_0000], vec![], t("corpus_raw_window_beyond_i64_max_panic")),
+    (false, le, i64::MAX - 5, 10, vec![0xfc00_0000], vec![], t("corpus_raw_window_beyond_i64_max_members_inside")),
+    (false, le, i64::MAX - 5, 10, vec![0x003f_ffff], vec![], t("corpus_raw_window_beyond_i64_max_only_padding")),
+    (true, be, u32::MAX as i64 - 3, 8, vec![0x0100_0000], vec![], t("corpus_raw_window_beyond_u32_max_last_panic")),
+    (true, be, u32::MAX as i64 - 3, 8, vec![0xf000_0000], vec![], t("corpus_raw_window_beyond_u32_max_members_inside")),
+    (false, be, i64::MIN, 64, vec![0x8000_0001, 0x8000_0001], vec![], t("corpus_raw_base_i64_min")),
+  ]
+}
+
+/// dense table: every numBits in 0..=256 with the word patterns, kinds and byte orders rotated in
+/// the quick tier (each numBits sees every pattern; each pattern sees both kinds and both byte
+/// orders at every residue of numBits mod 32), everything in the thorough tier; then word-count
+/// violations
+fn table_numraw(tier: &str) -> Vec<RawCase> {
+  let mut v: Vec<RawCase> = Vec::new();
+  let mut r = Rng::new(0xC14_0002);
+  let thorough = tier == "thorough";
+  let le = Endianness::LittleEndian;
+  let be = Endianness::BigEndian;
+  for bits in 0..=256u32 {
+    for pattern in 0..6u32 {
+      for combo in 0..4u32 {
+        // rotate so that consecutive numBits and the residues mod 32 see different combinations
+        if !thorough && (bits + bits / 32 + pattern) % 4 != combo {
+          continue;
+        }
+        // quick tier: the two extra patterns only near the word boundaries and for small sets
+        if !thorough && pattern >= 4 && !(bits <= 40 || bits % 32 <= 2 || bits % 32 >= 30) {
+          continue;
+        }
+        let fnk = combo & 1 == 1;
+        let e = if combo & 2 == 2 { be } else { le };
+        let base = if fnk {
+          RAW_FN_BASES[((bits + pattern) % 4) as usize]
+        } else {
+          RAW_SN_BASES[((bits + pattern) % 6) as usize]
+        };
+        let words = raw_words(&mut r, bits, pattern);
+        v.push((fnk, e, base, bits, words, vec![], format!("rawtable_{}", RAW_PATTERN[pattern as usize])));
+      }
+    }
+  }
+  // word-count and numBits violations
+  for (i, bits) in [0u32, 1, 31, 32, 33, 64, 65, 224, 225, 255, 256, 257, 288, 1000, 0x1_0000, u32::MAX - 31]
+    .iter()
+    .enumerate()
+  {
+    let wc = ((*bits as u64 + 31) / 32).min(9) as usize;
+    for variant in 0..6u32 {
+      let fnk = (i as u32 + variant) % 2 == 1;
+      let e = if (i as u32 / 2 + variant) % 2 == 1 { be } else { le };
+      let base = if fnk { 1000 } else { 0x1_0000_0000 - 8 };
+      let (n, extra, tag): (usize, Vec<u8>, &str) = match variant {
+        0 => (wc.saturating_sub(1), vec![], "one_word_short"),
+        1 => (wc + 1, vec![], "one_word_long"),
+        2 => (wc.saturating_sub(1), vec![0xff, 0xff, 0xff], "one_word_short_3_bytes"),
+        3 => (wc.saturating_sub(1), vec![0xff, 0xff, 0xff, 0xff], "one_word_short_4_bytes"),
+        4 => (wc, vec![0xaa, 0xbb, 0xcc, 0xdd, 0xee], "trailing_bytes"),
+        _ => (0, vec![0xff; 4 * wc], "no_words_all_from_extra"),
+      };
+      let words: Vec<u32> = (0..n).map(|_| if r.chance(1, 2) { u32::MAX } else { r.next() as u32 }).collect();
+      v.push((fnk, e, base, *bits, words, extra, format!("rawviolation_{}", tag)));
+    }
+  }
+  v
+}
+
+fn g_numraw(r: &mut Rng) -> RawCase {
+  let fnk = r.chance(1, 2);
+  let e = g_e(r);
+  let bits = match r.below(8) {
+    0..=2 => *r.pick(&BITS_GRID),
+    3..=6 => r.below(257) as u32,
+    _ => *r.pick(&[257u32, 288, 1000, u32::MAX - 31]),
+  };
+  let mut wc = ((bits as u64 + 31) / 32).min(10) as usize;
+  if r.chance(1, 6) {
+    wc = if r.chance(1, 2) { wc + 1 } else { wc.saturating_sub(1) };
+  }
+  let mode = r.below(5);
+  let words: Vec<u32> = (0..wc)
+    .map(|_| match mode {
+      0 => 0,
+      1 => u32::MAX,
+      2 => 1 << r.below(32),
+      3 => (r.next() & r.next()) as u32,
+      _ => r.next() as u32,
+    })
+    .collect();
+  let base = if fnk { g_u32(r) as i64 } else { g_sn(r) };
+  let nextra = r.below(9) as usize;
+  let extra = if r.chance(1, 4) { g_vec(r, nextra) } else { vec![] };
+  (fnk, e, base, bits, words, extra, "stream_numraw".to_string())
+}
+
+// ------------------------------------------------------------------------------------------------
 // generators
 
 const SN_GRID: [i64; 16] = [
@@ -1944,6 +2273,15 @@ pub fn run(args: &Args) -> i32 {
     }
     idx += 1;
   }
+  let rawtable: Vec<RawCase> = corpus_numraw().into_iter().chain(table_numraw(&args.tier)).collect();
+  out.extra.push(("numraw_table_cases".to_string(), rawtable.len().to_string()));
+  for (fnk, e, base, bits, words, extra, tag) in rawtable {
+    if want(idx) {
+      let kind = if tag.starts_with("corpus") { "corpus" } else { "table" };
+      run_numraw(&mut out, idx, fnk, e, base, bits, &words, &extra, &[kind.to_string(), tag]);
+    }
+    idx += 1;
+  }
   for _ in 0..args.n {
     if want(idx) {
       let mut r = Rng::for_case(args.seed, idx);
@@ -1961,6 +2299,11 @@ pub fn run(args: &Args) -> i32 {
         11..=14 => {
           let (b, how) = g_hostile(&mut r);
           run_bytes(&mut out, idx, &b, &["stream_hostile".to_string(), format!("hostile_{}", how)]);
+        }
+        _ if r.chance(1, 2) => {
+          // random wire-parsed number sets beside the table
+          let (fnk, e, base, bits, words, extra, tag) = g_numraw(&mut r);
+          run_numraw(&mut out, idx, fnk, e, base, bits, &words, &extra, &[tag]);
         }
         _ => {
           // random number sets beside the table
